@@ -194,7 +194,7 @@ func init() {
 			}
 			type site struct {
 				key, pos, why string
-				bad       bool
+				bad           bool
 			}
 			var sites []site
 			for _, fn := range fns {
